@@ -25,7 +25,7 @@ TRUSTED = [
     "the theorems cover role resolution and pair selection only; READY on mirrored pairs for the whole check-list engine is NOT proved: it is "
     "explored by simulating two real NiceAgents under a virtual clock and a virtual UDP network (interposed sendmsg/recvmsg/poll/"
     "clock_gettime; scripted interface list) with loss/duplication/delay/reordering that respects the property's loss hypothesis",
-    "ICE-TCP is not part of this simulation (UDP host candidates only; an eighth of the sessions use reliable agents, a tenth keepalive checks)",
+    "ICE-TCP is not part of this simulation (UDP host candidates only; an eighth of the sessions use reliable agents)",
 ]
 
 
@@ -34,13 +34,11 @@ def scenario(args):
     import random
     rng = random.Random(f"C01/{seed}")
     cfg = sc.base_config(rng, tier)
-    # less-travelled agent options under which convergence must hold just the same: reliable agents (pseudo-TCP over the
-    # selected UDP pair), keepalives sent as connectivity checks
-    r_ = rng.random()
-    if r_ < 0.12:
+    # a less-travelled agent option under which convergence must hold just the same: reliable agents (pseudo-TCP over the
+    # selected UDP pair).  (Keepalives sent as connectivity checks were tried and dropped: they are single-shot transactions
+    # outside the loss hypothesis, and in aggressive mode they legitimately move the controlled side's selection later.)
+    if rng.random() < 0.12:
         cfg.update(extra_opts=2)
-    elif r_ < 0.22:
-        cfg.update(keepalive=1)
     s = None
     try:
         s = sc.start_session(exe, seed, cfg)
